@@ -90,6 +90,8 @@ class Extractor:
                 return ("min", self.term(e.args[0], depth + 1), self.term(e.args[1], depth + 1))
             if cn in ("torch.max", "torch.maximum", "max") and len(e.args) == 2:
                 return ("max", self.term(e.args[0], depth + 1), self.term(e.args[1], depth + 1))
+            if cn in ("torch.zeros_like", "torch.zeros") or (isinstance(e.func, ast.Attribute) and e.func.attr in ("new_zeros",)):
+                return 0
             if cn in ("torch.relu", "torch.nn.functional.relu") and len(e.args) == 1:
                 return ("max", self.term(e.args[0], depth + 1), 0)
             if isinstance(e.func, ast.Attribute):
